@@ -28,12 +28,15 @@ var (
 
 // RowsSmall is the default row count distribution: size classes rather than uniform.
 func RowsSmall() *rapid.Generator[int] {
-	return rapid.OneOf(rapid.IntRange(0, 2), rapid.IntRange(3, 12), rapid.IntRange(3, 12), rapid.IntRange(13, 40))
+	return rapid.OneOf(rapid.IntRange(0, 2), rapid.IntRange(3, 12), rapid.IntRange(3, 12), rapid.IntRange(13, 40), rapid.SampledFrom(thresholdRows[:6]))
 }
+
+// row counts right at the thresholds of the library (insertion sort <= 12, ninther > 40, String() shows 50 rows)
+var thresholdRows = []int{11, 12, 13, 39, 40, 1, 41, 42, 49, 50, 51, 52, 64, 65}
 
 // RowsUpTo returns size classes up to max (max >= 41).
 func RowsUpTo(max int) *rapid.Generator[int] {
-	return rapid.OneOf(rapid.IntRange(0, 2), rapid.IntRange(3, 12), rapid.IntRange(13, 40), rapid.IntRange(41, max))
+	return rapid.OneOf(rapid.IntRange(0, 2), rapid.IntRange(3, 12), rapid.IntRange(13, 40), rapid.IntRange(41, max), rapid.SampledFrom(thresholdRows))
 }
 
 func GenInt(t *rapid.T) int {
